@@ -143,6 +143,7 @@ pub fn generate(out: &mut Out, rng: &Prng, thorough: bool, workdir: &std::path::
             slave_only_from_start: false,
             slave_only_now: false,
             bmca_since_slave_only: false,
+            frames: Default::default(),
             meas: super::gen_inst::MeasOracle::default(),
             ex: InstExec::new(),
             out: &mut base_sink,
